@@ -80,7 +80,29 @@ def exh5(ctx: Ctx) -> List[Ob]:
     elif idmap_read and len(did_calls) == 1:
         # some other spelling of the node_id lookup: it must at least come first
         ok = True if all(any(any(x is r_ for x in ast.walk(s_)) for s_ in stmts_before(ctx, f, did_calls[0])) for r_ in idmap_read) else False
-    obs.append(ctx.tri("EXH-5", ["C09", "C02"], f, "node_id is consulted before data_id", None, ok, "resolution order: node_id, then data_id, then data"))
+    if ok is None:
+        # any spelling: a probe of the data_id index with the key that can run before every probe of the node_id map
+        def _probes(attr: str) -> List[ast.AST]:
+            out_ = []
+            for x in ast.walk(f.node):
+                if isinstance(x, ast.Subscript) and isinstance(x.ctx, ast.Load) and isinstance(x.value, ast.Attribute) and x.value.attr == attr and norm(x.slice) == p:
+                    out_.append(x)
+                elif isinstance(x, ast.Call) and isinstance(x.func, ast.Attribute) and x.func.attr == "get" and isinstance(x.func.value, ast.Attribute) \
+                        and x.func.value.attr == attr and x.args and norm(x.args[0]) == p:
+                    out_.append(x)
+                elif isinstance(x, ast.Compare) and len(x.ops) == 1 and isinstance(x.ops[0], (ast.In, ast.NotIn)) and isinstance(x.comparators[0], ast.Attribute) \
+                        and x.comparators[0].attr == attr and norm(x.left) == p:
+                    out_.append(x)
+                elif attr == "_nodes_by_data_id" and isinstance(x, ast.Call) and norm(x.func) == "self.find_all" and any(k.arg == "data_id" and norm(k.value) == p for k in x.keywords):
+                    out_.append(x)
+            return out_
+
+        np_, dp_ = _probes("_node_by_id"), _probes("_nodes_by_data_id")
+        if np_ and dp_:
+            first_d = [d_ for d_ in dp_ if all(d_ is o_ or not_after(ctx, f, d_, o_) for o_ in dp_)]
+            if first_d and all(n_ is not first_d[0] and not_after(ctx, f, first_d[0], n_) and not not_after(ctx, f, n_, first_d[0]) for n_ in np_):
+                ok = False  # the clone index is asked first; the node_id map only afterwards
+    obs.append(ctx.tri("EXH-5", ["C09", "C02"], f, "node_id is consulted before data_id", None, ok, "resolution order: node_id, then data_id, then data: an int key that is both a node_id and a data_id must give the node with that node_id"))
     if did_calls:
         # (one lookup pair per branch of the canonical form: an int key that is no node_id, any other key)
         ok = all(any(pol and match(f"{p} in self._nodes_by_data_id", e) is not None for e, pol in path_conds(ctx, f, dc)) for dc in did_calls)
@@ -379,6 +401,21 @@ def kind_branch(ctx: Ctx) -> List[Ob]:
                         bad.append(x)
         T(f, f"{name}: the scan only stops at a node of the wanted kind (no unconditional exit in the loop)", not bad,
           f"`{norm(bad[0])}` ends the scan after the first candidate: with interleaved kinds the match further away is missed" if bad else "")
+    f = m.func("TypedNode.get_index")
+    ok = None
+    kc_ = [c for c in valued(f) if _any_kind_pol(c.conds) is not True]
+    for c in kc_:
+        for v in reaching_values(ctx, f, c.stmt, c.value) if isinstance(c.value, ast.Name) else [c.value]:
+            v = resolve_expr(ctx, f, c.stmt, v)
+            if isinstance(v, ast.BinOp) and isinstance(v.op, (ast.Sub, ast.Add)) and any(
+                    isinstance(x, ast.Call) and norm(x.func).endswith("_index_of") and x.args and norm(resolve_expr(ctx, f, c.stmt, x.args[0])) in ("self._parent._children", "self._parent.children")
+                    for x in ast.walk(v)):
+                ok = False  # positions in the list of *all* siblings are subtracted: siblings of other kinds in between are counted
+            elif ok is None and isinstance(v, ast.Call) and norm(v.func).endswith("_index_of") and v.args \
+                    and norm(resolve_expr(ctx, f, c.stmt, v.args[0])) in ("self._parent.get_children(self.kind)", "self._parent.get_children(self._kind)", "self.parent.get_children(self.kind)"):
+                ok = True
+    T(f, "get_index: position among the siblings of the node's own kind", ok,
+      "the typed index is computed from positions in the full child list: with interleaved kinds the siblings of other kinds in between are counted")
     f = m.func("TypedNode.get_siblings")
     lc = [c for c in valued(f) if isinstance(c.value, ast.ListComp)]
     ok = None
@@ -676,6 +713,19 @@ def parent_walk(ctx: Ctx) -> List[Ob]:
         if not ok and not any("get_parent_list" in norm(c_.func) for c_ in ctx.env.calls_in[f]) and any(isinstance(n_, ast.While) for n_ in iter_own(f.node)):
             ok = None  # the two ancestor chains are followed by hand (parent links): not read by this clause
     T(["C10"], f, "get_common_ancestor: nearest (bottom-up) own ancestor-or-self whose node_id is among other's", ok, "")
+    # a short-cut answer (some parent, without the walk) must not be given for the pair (n, n): its nearest common
+    # ancestor-or-self is n itself
+    bad = None
+    for c in exit_cases(ctx, f, ("return",)):
+        if c.value is None:
+            continue
+        vt = norm(c.value)
+        if vt in ("self.parent", "self._parent", f"{o}.parent", f"{o}._parent"):
+            ts = cond_texts(c.conds)
+            if not any(t in ts for t in (f"not self is {o}", f"not {o} is self", f"self is not {o}", f"{o} is not self", f"not (self is {o})", f"not ({o} is self)")):
+                bad = c.stmt
+    T(["C10"], f, "get_common_ancestor: no short-cut answer for the pair (n, n)", None if bad is None and _single_return(ctx, f) is None else bad is None,
+      "a parent is returned without the walk under a condition that also holds for `n.get_common_ancestor(n)` (same parent): the answer must be n itself", bad)
     return obs
 
 
@@ -721,6 +771,26 @@ def frame(ctx: Ctx) -> List[Ob]:
     ok = (bool(find_under(ctx, f, "self._meta = values.copy()", [("replace or self._meta is None", True)])) or bool(find_under(ctx, f, "self._meta = dict(values)", [("replace or self._meta is None", True)]))) \
         and bool(find_under(ctx, f, "self._meta.update(values)", [("replace", False), ("self._meta is None", False)]))
     obs.append(ctx.ob("FRAME", ["C04"], f, "update_meta: replace stores a copy of the caller's dict, else merges", None, ok, ""))
+    # ... also when the new values are empty: replace=True with {} clears what was there
+    vp_ = [p_ for p_ in f.positional_params() if p_ != f.self_name][:1]
+    if vp_:
+        bad = None
+        for x in ast.walk(f.node):
+            if isinstance(x, (ast.Assign, ast.AnnAssign)) and any(isinstance(t, ast.Attribute) and t.attr == "_meta" for t in (x.targets if isinstance(x, ast.Assign) else [x.target])):
+                for e, pol in path_conds(ctx, f, x):
+                    if (pol and norm(e) in (vp_[0], f"len({vp_[0]}) > 0", f"len({vp_[0]})")) or ((not pol) and norm(e) in (f"not {vp_[0]}", f"{vp_[0]} is None", f"len({vp_[0]}) == 0")):
+                        if not (isinstance(x.value, ast.Constant) and x.value.value is None):
+                            bad = x
+        if bad is None:
+            # (the store is skipped by a preceding `if not values: return`)
+            for c in exit_cases(ctx, f, ("return",)):
+                ts = cond_texts(c.conds)
+                if f"not {vp_[0]}" in ts and not any(t in ts for t in ("not replace", "replace")) and c.value is None:
+                    before_w = [s_ for s_ in stmts_before(ctx, f, c.stmt) if any(isinstance(y, ast.Attribute) and y.attr == "_meta" and isinstance(y.ctx, ast.Store) for y in ast.walk(s_))]
+                    if not before_w:
+                        bad = c.stmt
+        obs.append(ctx.tri("FRAME", ["C04"], f, "update_meta: replace=True replaces also when the new values are empty", bad, bad is None,
+                           "the store of the new metadata runs only for non-empty values: update_meta({}, replace=True) leaves the old metadata in place"))
     f = m.func("Node.sort_children")
     srt = [c for c in ctx.env.calls_in[f] if isinstance(c.func, ast.Attribute) and c.func.attr == "sort"]
     ok = len(srt) == 1 and not srt[0].args and set(k.arg for k in srt[0].keywords) == {"key", "reverse"}
@@ -1373,6 +1443,22 @@ def search(ctx: Ctx) -> List[Ob]:
     g = m.func("Node.find_all")
     ok = has("self._search(match, add_self=add_self, max_results=max_results)", g.node)
     obs.append(ctx.ob("SEARCH", ["C09"], g, "find_all collects _search(match, add_self, max_results) in order", None, ok, ""))
+    # Tree.find_all / find_first with match=: a scan of the whole tree in pre-order, never an index lookup
+    for q in ("Tree.find_all", "Tree.find_first"):
+        h = m.func(q)
+        ok = None
+        dele = [c for c in ctx.env.calls_in[h] if norm(c.func) in ("self._root.find_all", "self._root.find_first", "self.system_root.find_all", "self.system_root.find_first")
+                and any(k.arg == "match" and norm(k.value) == "match" for k in c.keywords)]
+        if dele:
+            ok = True
+        for x in ast.walk(h.node):
+            if isinstance(x, ast.Attribute) and x.attr in ("_nodes_by_data_id", "_node_by_id") and isinstance(x.ctx, ast.Load):
+                pcs = path_conds(ctx, h, x)
+                if any((not pol) and norm(e) == "match is None" for e, pol in pcs) or any(pol and norm(e) in ("isinstance(match, str)", "match") for e, pol in pcs):
+                    ok = False
+        obs.append(ctx.tri("SEARCH", ["C09"], h, f"{q}(match=) scans the tree from the root in pre-order", None, ok,
+                           "a match pattern / callback is answered from an index: the index is keyed by data_id and kept in registration order, so nodes whose "
+                           "name matches but whose data is of another type are missed and the result is not in pre-order"))
     lc = find("[$n for $n in self.iterator(add_self=add_self) if $n._data_id == data_id]", g.node)
     obs.append(ctx.ob("SEARCH", ["C09", "C02"], g, "find_all(data/data_id) selects the nodes of the branch whose _data_id equals the id", None, len(lc) == 1, ""))
     return obs
